@@ -154,13 +154,14 @@ const (
 	opCollRecover1
 	opCollConsume2
 	opCollHelpers3
+	opUnwinderNil2
 	numOps
 )
 
 var opNames = [...]string{"leaf", "Wrap", "Wrapf", "FmtW", "ParsePanicErr", "Join1", "Collector1", "StackPush1",
 	"Join2", "FmtWW", "ErrorsJoin2", "StackPush2", "StackAdd2", "StackInStack2", "Collector2", "CustomUnwinder2",
-	"Join3", "StackInStack3", "ParsePanicSlice3", "CollectorRecover1", "CollectorConsume2", "CollectorHelpers3"}
-var opArity = [...]int{0, 1, 1, 1, 1, 1, 1, 1, 2, 2, 2, 2, 2, 2, 2, 2, 3, 3, 3, 1, 2, 3}
+	"Join3", "StackInStack3", "ParsePanicSlice3", "CollectorRecover1", "CollectorConsume2", "CollectorHelpers3", "CustomUnwinderWithNilSlot2"}
+var opArity = [...]int{0, 1, 1, 1, 1, 1, 1, 1, 2, 2, 2, 2, 2, 2, 2, 2, 3, 3, 3, 1, 2, 3, 2}
 
 type expr struct {
 	op   int
@@ -223,6 +224,8 @@ func (e *expr) String() string {
 		return `outer.Push(inner.Push(` + k[0] + `).Push(` + k[1] + `)).Push(` + k[2] + `).Resolve()`
 	case opPPSlice3:
 		return `ers.ParsePanic([]error{` + a + `})`
+	case opUnwinderNil2:
+		return `&unwinder{` + k[0] + `, nil, ` + k[1] + `}`
 	case opCollRecover1:
 		return `collector{defer erc.Recover; panic(` + a + `)}.Resolve()`
 	case opCollConsume2:
@@ -427,6 +430,13 @@ func eval(e *expr) (error, *mv) {
 		v, m = outer.Resolve(), combine(ms[:2], ms[2:])
 	case opPPSlice3:
 		v, m = ers.ParsePanic([]error{vs[0], vs[1], vs[2]}), combine(each(ms...)...)
+	case opUnwinderNil2:
+		// a user aggregate that hands out its own slice, which has an empty slot
+		if vs[0] == nil && vs[1] == nil {
+			v, m = nil, nilMV
+		} else {
+			v, m = &unwinder{errs: []error{vs[0], nil, vs[1]}}, stdAgg(ms...)
+		}
 	case opCollRecover1:
 		// the collector fed by a recovered panic whose value is the error
 		ec := &erc.Collector{}
@@ -546,6 +556,15 @@ func check(e *expr, v error, m *mv, evals *int) (fails []failure) {
 	var ot otherTyped
 	if errors.As(v, &op) || errors.As(v, &ot) {
 		add("as/unrelated-found", "errors.As(result, unrelated type) = true")
+	}
+	// Unwind is an observation: asking twice gives the same list, for every kind
+	// of root (observing an error must not change what it, or a later
+	// combination built from it, contains)
+	*evals++
+	first, again := describe(ers.Unwind(v)), describe(ers.Unwind(v))
+	if fmt.Sprint(first) != fmt.Sprint(again) {
+		add("unwind/not-stable", "Unwind(result) = %v, asked again = %v", first, again)
+		return
 	}
 	// Unwind
 	if !m.ersAgg {
